@@ -1,5 +1,6 @@
 import SLE.Lemmas.EvmSim
 import SLE.Gen.OpcodeTemplates
+import SLE.Lemmas.MachineFacts
 /-!
 # C07 — every explored path computes what a concrete EVM computes on that path
 
@@ -115,5 +116,21 @@ theorem C07_byte_correct_partial (i x : Nat) (hi : i < 2 ^ 253) (c : Ctx) (ctr :
 theorem C07_memory_offsets_alias_on_pinned :
     ∃ d off off' v w w', isKnown (SV.fold off) = some w ∧ isKnown (SV.fold off') = some w' ∧ w ≠ w' ∧
       (memLoad (memStore d off v true) off').1 ≠ (memLoad d off').1 := mload_alias_counterexample
+
+
+/-! ### Paths: forking copies the state, and a step touches only the running thread -/
+
+/-- One step of the machine leaves every other queued or finished thread exactly as it was: writes
+made by one path after a branch cannot show up in a sibling path. -/
+theorem C07_step_touches_head_only (cfg : Cfg) (code : List Disasm.Instr) (s : VMS) :
+    ∀ th ∈ s.queue.tail ++ s.stored, th ∈ (step cfg code s).queue ++ (step cfg code s).stored :=
+  MachineFacts.step_touches_head_only cfg code s
+
+/-- A storage history is append-only along a path: what was written before a branch is in both
+continuations, in order. -/
+theorem C07_history_append_only (c : Ctx) (code : List Disasm.Instr) (ins : Disasm.Instr)
+    (d : TData) (ctr : Nat) (k : SV) :
+    MachineFacts.gens d k <+: MachineFacts.gens (execOp c code ins d ctr).d k :=
+  MachineFacts.execOp_storage_monotone c code ins d ctr k
 
 end SLE.C07
